@@ -62,6 +62,13 @@ def build_pool(seed: int, tier: str):
         src = (f".map identifier=1 bank_range=0x00, 0x3f addr_range={win} mask={mask} mirror_bank_range=0x80, 0xbf\n"
                f"*=0x018000\nlb_m:\n.dl lb_m\n*=0x02fffe\nlb_n:\n.dl lb_n, lb_n\n*=0x838000\n.db 7\n")
         add("custom-map-same-addresses-" + tag, src, entries=("mem", "file_ips") if tier == "quick" else all_entries)
+    # every branch mnemonic, backward and forward, under each kind of mapping (what an instruction needs to know about the
+    # mapping is asked of the program it is assembled in)
+    br = "lb_t:\nnop\n" + "".join(f"{m} lb_t\n{m} lb_u\n" for m in ("bra", "bne", "beq", "bcc", "bcs", "bmi", "bpl")) + "lb_u:\nrts\n"
+    add("branches-low", "*=0x128010\n" + br, "low", entries=("mem", "file_ips", "cli"))
+    add("branches-high", "*=0xd28010\n" + br + "*=0x41ff80\n" + br.replace("lb_", "lc_"), "high", entries=("mem", "file_sfc", "cli"))
+    add("branches-custom-map-64k", ".map identifier=1 bank_range=0x10, 0x1f addr_range=0x0000, 0xffff mask=0x10000\n*=0x128010\n" + br + "*=0x130040\n" + br.replace("lb_", "lc_"), entries=("mem", "file_ips"))
+    add("branches-custom-map-32k", ".map identifier=4 bank_range=0x10, 0x1f addr_range=0x8000, 0xffff mask=0x8000\n*=0x128010\n" + br, entries=("mem", "cli"))
     # probes that are sensitive to a leaked mapping / symbol / macro / table
     add("probe-low", "*=0x128000\nlb_p:\n.dl lb_p\n*=0x058123\n.dl lb_p\n*=0x81fffe\nlb_q:\n.dl lb_q, lb_q\n", "low", entries=all_entries, probes=["lb_p", "lb_q"])
     add("probe-high", "*=0xd28000\nlb_p:\n.dl lb_p\n*=0x41fffe\nlb_q:\n.dl lb_q, lb_q\n", "high", entries=all_entries, probes=["lb_p", "lb_q"])
